@@ -29,6 +29,16 @@ Property C13, DESIGN.md Appendix B.5.  Core Lean only.  Sequential model: one op
   `SetDeadline(time.Now())`; `abortWrite()` if the handle is a `writeAborter` (UDP: the mux protocol of
   `IceModel.WriteAbort`, no effect on this model; TCP: `tcpPacketConn` is no `writeAborter`); `Close()`.
 
+* Several TCP connections per ufrag and the fault "SetWriteDeadline fails" (`State.conns`).
+  `tcpPacketConn.SetWriteDeadline(d)` applies `d` to EVERY `net.Conn` of the ufrag and reports the FIRST error
+  afterwards; a connection that refuses the call (reset by its peer, not swept yet) keeps its old deadline.  All
+  connections that have never refused therefore carry one common value: `State.wdlPast` IS that common register;
+  only a connection that has refused at some time (`Conn.dirty`) needs its own register (`Conn.wdl`), and it takes
+  part in later fan-outs again whenever it does not refuse.  The error of the forwarded call is the result of the
+  handle's `SetWriteDeadline` / `SetDeadline`, the first error of `abortIO`, and — for the clear issued by `Close`
+  of an arming wrapper — `Close`'s result.  `write h c` goes to connection `c` (`tcpPacketConn.WriteTo` picks the
+  `net.Conn` by remote address) and fails under THAT connection's deadline.
+
 The underlying connection is abstract: a queue length, a count of `Close` calls, the write-deadline
 register, and — once closed — writes and reads fail (`udpMuxedConn`, `tcpPacketConn` and the harness's
 fake all do).
@@ -46,6 +56,19 @@ structure Handle where
   wdArmed : Bool := false
   deriving DecidableEq, Repr, Inhabited
 
+/-- One `net.Conn` of the ufrag's `tcpPacketConn` (only kinds with several scripted connections have any). -/
+structure Conn where
+  /-- `SetWriteDeadline` / `SetDeadline` of this connection return an error and change nothing -/
+  refuse : Bool := false
+  /-- it has refused at some time: its register no longer follows the common one -/
+  dirty : Bool := false
+  /-- its own write-deadline register (meaningful once `dirty`) -/
+  wdl : Bool := false
+  deriving DecidableEq, Repr, Inhabited
+
+/-- one connection's part in `for _, conn := range t.conns { conn.SetWriteDeadline(v) }` -/
+def Conn.fan (v : Bool) (k : Conn) : Conn := if k.dirty && !k.refuse then { k with wdl := v } else k
+
 structure State where
   /-- the shared `atomic.Int32` -/
   refs : Int
@@ -60,10 +83,25 @@ structure State where
   fwd : Bool := false
   /-- write-deadline register of the underlying connection: a time in the past -/
   wdlPast : Bool := false
+  /-- the scripted connections of the ufrag (kinds without them: `[]`, one common register) -/
+  conns : List Conn := []
   deriving DecidableEq, Repr, Inhabited
 
-/-- initial state for an underlying connection of the given kind -/
-def State.initK (fwd : Bool) : State := { refs := 0, handles := [], uCloses := 0, queue := 0, fwd := fwd, wdlPast := false }
+/-- initial state for an underlying connection of the given kind with `k` scripted connections -/
+def State.initK (fwd : Bool) (k : Nat := 0) : State :=
+  { refs := 0, handles := [], uCloses := 0, queue := 0, fwd := fwd, wdlPast := false, conns := List.replicate k {} }
+
+/-- some connection refuses deadline calls right now: the forwarded `SetWriteDeadline` reports an error -/
+def State.refusing (s : State) : Bool := s.fwd && s.conns.any (·.refuse)
+
+/-- the write-deadline register of connection `c` -/
+def State.reg (s : State) (c : Nat) : Bool :=
+  match s.conns[c]? with
+  | some k => if k.dirty then k.wdl else s.wdlPast
+  | none => s.wdlPast
+
+/-- `underlying.SetWriteDeadline(v)` as seen by the connections with a register of their own -/
+def State.fan (s : State) (v : Bool) : List Conn := if s.fwd then s.conns.map (Conn.fan v) else s.conns
 
 /-- the kind whose `SetWriteDeadline` does nothing (`udpMuxedConn`) -/
 def State.init : State := State.initK false
@@ -72,13 +110,16 @@ inductive Op where
   | «open»
   | close (h : Nat)
   | read (h : Nat)
-  | write (h : Nat)
+  /-- write through handle `h` to connection `c` (kinds without scripted connections: `c` is ignored) -/
+  | write (h : Nat) (c : Nat := 0)
   | setrd (h : Nat) (past : Bool)
   | setwd (h : Nat) (past : Bool)
   /-- `SetDeadline` -/
   | setd (h : Nat) (past : Bool)
   /-- the `candidateBase.abortIO` sequence on handle `h`: `SetDeadline(now)`, `abortWrite`, `Close` -/
   | abort (h : Nat)
+  /-- the environment: connection `c` starts (`on`) / stops refusing `SetWriteDeadline` and `SetDeadline` -/
+  | refuse (c : Nat) (on : Bool)
   /-- the environment delivers one datagram to the underlying connection -/
   | feed
   deriving DecidableEq, Repr, Inhabited
@@ -102,7 +143,17 @@ inductive Out where
   | badHandle
   /-- `abort` of a handle that is already closed: `SetDeadline` fails closed, `Close` is inert -/
   | abortedClosed (u : Nat)
+  /-- a deadline setter returned the error of a refusing connection -/
+  | refused
+  /-- `Close` / `abortIO` did its work and returned the error of a refusing connection -/
+  | closedErr (u : Nat) (rel : Nat)
   deriving DecidableEq, Repr, Inhabited
+
+/-- the result when the forwarded `SetWriteDeadline` reported an error (`b`) -/
+def Out.orRefused (b : Bool) : Out → Out
+  | .ok => if b then .refused else .ok
+  | .closed u rel => if b then .closedErr u rel else .closed u rel
+  | o => o
 
 def Out.toString : Out → String
   | .handle id => s!"h{id}"
@@ -117,6 +168,8 @@ def Out.toString : Out → String
   | .skip => "skip"
   | .badHandle => "bad-handle"
   | .abortedClosed u => s!"err:closed u={u} rel=0"
+  | .refused => "err:other"
+  | .closedErr u rel => s!"err:other u={u} rel={rel}"
 
 def nOpen (hs : List Handle) : Nat := hs.countP (fun h => !h.closed)
 def totalPending (hs : List Handle) : Nat := (hs.map (·.pending)).sum
@@ -143,8 +196,8 @@ def step (s : State) : Op → State × Out
           ({ s with refs := refs, handles := hs, uCloses := s.uCloses + 1, queue := 0 },
            .closed (s.uCloses + 1) hd.pending)                            -- underlying.Close()
         else if hd.wdArmed then                                           -- writeDeadlineArmed.Swap(false)
-          ({ s with refs := refs, handles := hs, wdlPast := if s.fwd then false else s.wdlPast },
-           .closed s.uCloses hd.pending)                                  -- underlying.SetWriteDeadline(time.Time{})
+          ({ s with refs := refs, handles := hs, wdlPast := if s.fwd then false else s.wdlPast, conns := s.fan false },
+           (Out.closed s.uCloses hd.pending).orRefused s.refusing)        -- err = underlying.SetWriteDeadline(time.Time{})
         else ({ s with refs := refs, handles := hs }, .closed s.uCloses hd.pending)
   | .read h =>
     match s.handles[h]? with
@@ -155,13 +208,13 @@ def step (s : State) : Op → State × Out
       else if s.queue > 0 then ({ s with queue := s.queue - 1 }, .data)
       else if hd.rdlPast then (s, .errTimeout)
       else ({ s with handles := s.handles.set h { hd with pending := hd.pending + 1 } }, .pending)
-  | .write h =>
+  | .write h c =>
     match s.handles[h]? with
     | none => (s, .badHandle)
     | some hd =>
       if hd.closed then (s, .errClosed)
       else if s.uCloses > 0 then (s, .errClosed)
-      else if s.wdlPast then (s, .errTimeout)     -- the underlying write fails under the shared deadline
+      else if s.reg c then (s, .errTimeout)     -- the underlying write fails under the connection's deadline
       else (s, .ok)
   | .setrd h past =>
     match s.handles[h]? with
@@ -175,14 +228,16 @@ def step (s : State) : Op → State × Out
     | some hd =>
       if hd.closed then (s, .errClosed)
       else ({ s with handles := s.handles.set h { hd with wdArmed := past },   -- writeDeadlineArmed.Store(!t.IsZero())
-                     wdlPast := if s.fwd then past else s.wdlPast }, .ok)      -- underlying.SetWriteDeadline(t)
+                     wdlPast := if s.fwd then past else s.wdlPast, conns := s.fan past },
+            Out.ok.orRefused s.refusing)                                       -- underlying.SetWriteDeadline(t)
   | .setd h past =>
     match s.handles[h]? with
     | none => (s, .badHandle)
     | some hd =>
       if hd.closed then (s, .errClosed)
       else ({ s with handles := s.handles.set h { hd with rdlPast := past, wdArmed := past },
-                     wdlPast := if s.fwd then past else s.wdlPast }, .ok)
+                     wdlPast := if s.fwd then past else s.wdlPast, conns := s.fan past },
+            Out.ok.orRefused s.refusing)
   | .abort h =>
     match s.handles[h]? with
     | none => (s, .badHandle)
@@ -195,10 +250,16 @@ def step (s : State) : Op → State × Out
         let refs := s.refs - 1
         if refs ≤ 0 then
           ({ s with refs := refs, handles := hs, uCloses := s.uCloses + 1, queue := 0,
-                    wdlPast := if s.fwd then true else s.wdlPast },
-           .closed (s.uCloses + 1) hd.pending)
-        else ({ s with refs := refs, handles := hs, wdlPast := if s.fwd then false else s.wdlPast },
-              .closed s.uCloses hd.pending)
+                    wdlPast := if s.fwd then true else s.wdlPast, conns := s.fan true },
+           (Out.closed (s.uCloses + 1) hd.pending).orRefused s.refusing)    -- first error: SetDeadline's
+        else ({ s with refs := refs, handles := hs, wdlPast := if s.fwd then false else s.wdlPast, conns := s.fan false },
+              (Out.closed s.uCloses hd.pending).orRefused s.refusing)
+  | .refuse c on =>
+    match s.conns[c]? with
+    | none => (s, .badHandle)
+    | some k =>
+      ({ s with conns := s.conns.set c { refuse := on, dirty := k.dirty || on,
+                                          wdl := if k.dirty then k.wdl else s.wdlPast } }, .ok)
   | .feed =>
     if s.uCloses > 0 then (s, .skip)
     else if totalPending s.handles = 0 then ({ s with queue := s.queue + 1 }, .fed none)
@@ -222,7 +283,7 @@ def runOps (s : State) : List Op → State
   | op :: rest => runOps (step s op).1 rest
 
 inductive Reachable : State → Prop where
-  | init (fwd : Bool) : Reachable (State.initK fwd)
+  | init (fwd : Bool) (k : Nat) : Reachable (State.initK fwd k)
   | step {s : State} (op : Op) : Reachable s → op.legal s = true → Reachable (step s op).1
 
 end IceModel.SharedConn
